@@ -156,4 +156,142 @@ theorem isFalseRow_evalG_neg {R : Type} [CommRing R] [LinearOrder R] [IsStrictOr
   rw [evalG_zeroVar f i v h.1]
   exact_mod_cast h.2
 
+/-! ### derivation steps -/
+
+theorem py_idx_nat (f : Row) (i : Nat) : Py.idx f (i : Int) = f.getD i 0 := by
+  simp [Py.idx]
+
+/-- what the translated `combine_real_factoid` returns: a combination with multipliers `≥ 0`,
+under the guard `f1[i] > 0 > f2[i]`. -/
+theorem combine_real_spec (i : Int) (f1 f2 r : Row) (h : Gen.combine_real_factoid i f1 f2 = some r) :
+    ∃ c d : Int, 0 ≤ c ∧ 0 ≤ d ∧ 0 < Py.idx f1 i ∧ Py.idx f2 i < 0 ∧
+      c = Py.intDiv (Py.idx f1 i) (Py.gcd (Py.idx f1 i) (-(Py.idx f2 i))) ∧
+      d = Py.intDiv (-(Py.idx f2 i)) (Py.gcd (Py.idx f1 i) (-(Py.idx f2 i))) ∧
+      r = List.zipWith (fun m n => c * n + d * m) f1 f2 := by
+  unfold Gen.combine_real_factoid at h
+  split at h
+  · simp at h
+  · rename_i hc
+    simp only [Bool.not_eq_false, Bool.and_eq_true, decide_eq_true_eq, Bool.not_eq_eq_eq_not, Bool.not_true] at hc
+    simp only [Py.factoid] at h
+    split at h
+    · simp at h
+    · have hc1 : 0 < Py.idx f1 i := by
+        have := hc; simp at this; omega
+      have hc2 : Py.idx f2 i < 0 := by
+        have := hc; simp at this; omega
+      refine ⟨_, _, ?_, ?_, hc1, hc2, rfl, rfl, (Option.some.inj h).symm⟩
+      · exact Int.tdiv_nonneg (by omega) (by simp [Py.gcd])
+      · exact Int.tdiv_nonneg (by omega) (by simp [Py.gcd])
+
+theorem gcdFold_dvd : ∀ (l : List Int) (g0 : Nat),
+    (l.foldl (fun g c => Nat.gcd g c.natAbs) g0 ∣ g0) ∧
+    ∀ k ∈ l, l.foldl (fun g c => Nat.gcd g c.natAbs) g0 ∣ k.natAbs
+  | [], g0 => by simp
+  | a :: l, g0 => by
+    obtain ⟨h1, h2⟩ := gcdFold_dvd l (Nat.gcd g0 a.natAbs)
+    refine ⟨?_, ?_⟩
+    · simpa using Nat.dvd_trans h1 (Nat.gcd_dvd_left _ _)
+    · intro k hk
+      rcases List.mem_cons.mp hk with rfl | hk
+      · simpa using Nat.dvd_trans h1 (Nat.gcd_dvd_right _ _)
+      · simpa using h2 k hk
+
+theorem gcdList_dvd (l : List Int) (k : Int) (hk : k ∈ l) : (gcdList l : Int) ∣ k :=
+  Int.natCast_dvd.mpr ((gcdFold_dvd l 0).2 k hk)
+
+/-- every common divisor of the entries divides `gcdList` -/
+theorem dvd_gcdFold (d : Nat) : ∀ (l : List Int) (g0 : Nat), d ∣ g0 → (∀ k ∈ l, d ∣ k.natAbs) →
+    d ∣ l.foldl (fun g c => Nat.gcd g c.natAbs) g0
+  | [], g0, h0, _ => by simpa using h0
+  | a :: l, g0, h0, h => by
+    simp only [List.foldl_cons]
+    exact dvd_gcdFold d l _ (Nat.dvd_gcd h0 (h a (List.mem_cons_self ..))) (fun k hk => h k (List.mem_cons_of_mem _ hk))
+
+/-- dividing a row by a positive common divisor `g` of its variable coefficients:
+`eval f = g·S + c` and `eval (f / g) = S + ⌊c / g⌋` for the same `S`. -/
+theorem divRow_split (g : Int) : ∀ (f : Row) (i : Nat) (v : Nat → Int), f ≠ [] → (∀ k ∈ rowKey f, g ∣ k) →
+    ∃ S : Int, evalAt f i v = g * S + rowConst f ∧ evalAt (divRow f g) i v = S + rowConst f / g
+  | [], _, _, h, _ => absurd rfl h
+  | [c], i, v, _, _ => ⟨0, by simp [evalAt, rowConst], by simp [evalAt, divRow, rowConst]⟩
+  | a :: b :: rest, i, v, _, hd => by
+    have hk : rowKey (a :: b :: rest) = a :: rowKey (b :: rest) := by simp [rowKey, List.dropLast]
+    have hcst : rowConst (a :: b :: rest) = rowConst (b :: rest) := by simp [rowConst]
+    obtain ⟨S, h1, h2⟩ := divRow_split g (b :: rest) (i + 1) v (by simp)
+      (fun k hk' => hd k (by rw [hk]; exact List.mem_cons_of_mem _ hk'))
+    obtain ⟨q, hq⟩ : g ∣ a := hd a (by rw [hk]; exact List.mem_cons_self ..)
+    by_cases hg : g = 0
+    · subst hg
+      refine ⟨S, ?_, ?_⟩
+      · simp only [evalAt, h1, hcst]; rw [hq]; ring
+      · simp only [divRow, List.map_cons, evalAt] at h2 ⊢
+        rw [h2, hcst]; simp
+    · refine ⟨q * v i + S, ?_, ?_⟩
+      · simp only [evalAt, h1, hcst]; rw [hq]; ring
+      · simp only [divRow, List.map_cons, evalAt] at h2 ⊢
+        rw [h2, hcst, hq, Int.mul_ediv_cancel_left _ hg]; ring
+
+theorem divRow_nonneg (g : Int) (hg : 0 < g) (f : Row) (i : Nat) (v : Nat → Int) (hf : f ≠ [])
+    (hd : ∀ k ∈ rowKey f, g ∣ k) (h : 0 ≤ evalAt f i v) : 0 ≤ evalAt (divRow f g) i v := by
+  obtain ⟨S, h1, h2⟩ := divRow_split g f i v hf hd
+  rw [h2]
+  have : -S ≤ rowConst f / g := Int.le_ediv_of_mul_le hg (by rw [h1] at h; linarith)
+  linarith
+
+/-- every row a legal derivation proves is a consequence of the given rows over the integers -/
+theorem evalDeriv_sound (rows : List Row) (v : Nat → Int) (hv : Sat rows v) :
+    ∀ (d : Deriv) (f : Row), evalDeriv rows d = some f → 0 ≤ evalRow f v := by
+  intro d
+  induction d with
+  | asm r =>
+    intro f h
+    simp only [evalDeriv] at h
+    split at h
+    · rename_i hc
+      cases h
+      exact hv _ (by simpa using hc)
+    · simp at h
+  | realCombine i d1 d2 ih1 ih2 =>
+    intro f h
+    simp only [evalDeriv] at h
+    split at h
+    · rename_i f1 f2 h1 h2
+      split at h
+      · rename_i hl
+        obtain ⟨c, d, hc, hd, _, _, _, _, rfl⟩ := combine_real_spec _ _ _ _ h
+        have e1 := ih1 f1 h1
+        have e2 := ih2 f2 h2
+        simp only [evalRow, evalAt_eq_evalG] at e1 e2 ⊢
+        rw [evalG_lin c d f1 f2 0 v hl]
+        simp only [Int.cast_id]
+        positivity
+      · simp at h
+    · simp at h
+  | gcdCheck d ih =>
+    intro f h
+    simp only [evalDeriv] at h
+    split at h
+    · rename_i f0 h0
+      split at h
+      · rename_i hg
+        cases h
+        exact divRow_nonneg _ (by omega) f0 0 v hg.2 (fun k hk => gcdList_dvd _ k hk) (ih f0 h0)
+      · simp at h
+    · simp at h
+  | directContr d1 d2 ih1 ih2 =>
+    intro f h
+    simp only [evalDeriv] at h
+    split at h
+    · rename_i f1 f2 h1 h2
+      split at h
+      · rename_i hl
+        cases h
+        have e1 := ih1 f1 h1
+        have e2 := ih2 f2 h2
+        simp only [evalRow, evalAt_eq_evalG] at e1 e2 ⊢
+        rw [evalG_add f1 f2 0 v hl]
+        linarith
+      · simp at h
+    · simp at h
+
 end Holpy.C16
